@@ -13,9 +13,9 @@ import (
 
 // fstore is a plain log store with optional failure injection.
 type fstore struct {
-	logs             map[uint64]*raft.Log
-	failKind         string
-	failAt           int
+	logs               map[uint64]*raft.Log
+	failKind           string
+	failAt             int
 	nStore, nDel, nGet int
 }
 
@@ -204,7 +204,9 @@ func runSeq(seq []lop, capacity int, mk storeMaker, maxIdx uint64) (string, int)
 func makers() []storeMaker {
 	ms := []storeMaker{
 		func() (string, raft.LogStore, raft.LogStore) { return "plain", newFstore("", 0), newFstore("", 0) },
-		func() (string, raft.LogStore, raft.LogStore) { return "inmem", raft.NewInmemStore(), raft.NewInmemStore() },
+		func() (string, raft.LogStore, raft.LogStore) {
+			return "inmem", raft.NewInmemStore(), raft.NewInmemStore()
+		},
 	}
 	// Read failures are not injected: a cache hit legitimately answers without
 	// asking the backend, so "the n-th backend read fails" is not comparable.
